@@ -68,6 +68,11 @@ def histories(strict=False, guaranteed_bias=False, max_ticks=40):
         # datagram counters of both directions positioned shortly before the 16-bit wrap once the handshake is over (white-box
         # write, as in C03/C04; 0 = left alone): acks, ack bitmaps, retransmissions and timeouts straddle 65535 -> 1
         "pos": st.sampled_from([0, 0, 0, 65490, 65515, 65530]),
+        # once the history is over (everything resolved, connection still up) the application disconnects and calls connect()
+        # again ON THE SAME UdpClient OBJECT, from the same address, and both sides send a few guaranteed messages over a perfect
+        # link: whatever the first session left behind (counters, queues, pending tables, fragment contexts, timers, state kept
+        # on a class) must not reach into the second one
+        "second_session": st.sampled_from([False, False, True]),
         "send_faults": st.one_of(st.just([]), st.just([]), st.lists(st.integers(1, 120), min_size=1, max_size=4, unique=True)),
         "burst": st.one_of(st.none(), st.none(), st.none(), st.fixed_dictionaries({
             "tick": st.integers(0, max_ticks), "side": st.sampled_from(["c", "s"]), "count": st.sampled_from([40, 257, 300, 420]),
@@ -347,9 +352,62 @@ def run(ctx, c, oracle, per_step=None, link_setup=None, payload_fn=None):
         f.t_end = w.clock.t
         f.connection_lost = (not ch.connected()) or (w.server_conn(ch.laddr) is None) or any(e["ev"] == "disconnect" for e in w.events)
         oracle(f)
+        if c.get("second_session") and f.quiescent and not f.connection_lost and w.server_alive():
+            second_session(ctx, c, f, payload_fn)
         if not w.server_alive():
             ctx.violation("server-loop-died", "server thread died: %r" % (w.thread_exc,))
     return f
+
+
+def second_session(ctx, c, f, payload_fn):
+    w, ch = f.w, f.ch
+    w.net.policy = None
+    ch.send_faults = None               # the second session runs on a perfect link and a healthy socket
+    n_events = len(w.events)
+    W.client_disconnect_and_wait(w, ch)
+    w.run(0.5, 0.017)
+    ch.alive = True
+    ch.udp.connect(w.server_addr, None)
+    ch._note_status()
+    if not w.run(3.0, 0.017, until=lambda: ch.connected() and ch.laddr in w.ctxt.connections):
+        ctx.violation("second-session-connect-failed", "the same UdpClient called connect() again after a graceful disconnect: status %s after 3 s on a "
+                      "perfect link, server pool has it: %s" % (ch.status(), ch.laddr in w.ctxt.connections))
+        return
+    P, F = Packet.MAX_PAYLOAD_SIZE, Packet.MAX_FRAGMENT_SIZE
+    sizes = [12, 40, P, P + 1, 3 * F + 7, 9000]
+    payload_fn = W.payload_for          # unique per uid whatever content generator the property module uses
+    recs = []
+    for i, n in enumerate(sizes):
+        for side in ("c", "s"):
+            uid = 880000 + 2 * i + (side == "s")
+            if side == "c":
+                rec = ch.send(payload_fn(uid, n), retry=-1, callback=True, api="send_guaranteed" if i % 2 else "send")
+            else:
+                rec = w.server_send(ch.laddr, payload_fn(uid, n), retry=RetryMode(-1), callback=True)
+            rec["n"] = n
+            recs.append(rec)
+        w.step(c["dt"])
+
+    def done():
+        return all(w.ledger.n_delivered(r["receiver"], r["payload"]) >= 1 and r["cb"] for r in recs if "raised" not in r)
+    for k in range(int(8.0 / c["dt"])):
+        w.step(c["dt"])
+        if k % 8 == 0 and done():
+            break
+    w.run(1.3, c["dt"])
+    f.second_session = True
+    for r in recs:
+        desc = "second session of one UdpClient object: %s %d bytes guaranteed" % (r["api"], r["n"])
+        if "raised" in r:
+            ctx.violation("second-session-send-raises", "%s: %s" % (desc, r["raised"]))
+            continue
+        nd = w.ledger.n_delivered(r["receiver"], r["payload"])
+        if nd != 1:
+            ctx.violation("second-session-delivery", "%s delivered %d times within 9 s on a perfect link" % (desc, nd))
+        elif [ok for _, ok in r["cb"]] != [True]:
+            ctx.violation("second-session-callback", "%s: callback invocations %r (expected exactly one True)" % (desc, [(round(t, 3), ok) for t, ok in r["cb"]]))
+    if ch.update_errors:
+        ctx.violation("second-session-update-raises", "UdpClient.update raised %s" % (ch.update_errors[0][1],))
 
 
 def emissions_by_send(f):
